@@ -31,15 +31,16 @@ def C1x():
 
 
 def docs_():
-    return {'a:1': universe.A1(), 'a:2': universe.A2(), 'x:1': universe.X1(False),
+    return {'a:1': universe.A1(), 'a:2': universe.A2(), 'x:1': universe.X1(False), 'y:1': universe.Y1(),
             'b:1': universe.B1(), 'c:1': C1x()}
 
 
-LANG = {'a:1': 'en', 'a:2': 'en', 'x:1': 'en', 'b:1': 'es', 'c:1': 'en'}
+LANG = {'a:1': 'en', 'a:2': 'en', 'x:1': 'en', 'y:1': 'en', 'b:1': 'es', 'c:1': 'en'}
 SELECTIONS = [('default', {}), ('a:1', dict(lexicon='a:1')), ('a:2', dict(lexicon='a:2')),
               ('x:1', dict(lexicon='x:1')), ('b:1', dict(lexicon='b:1')), ('c:1', dict(lexicon='c:1')),
               ('a:1 x:1', dict(lexicon='a:1 x:1')), ('a:1 a:2', dict(lexicon='a:1 a:2')),
-              ('a:2 a:1 x:1', dict(lexicon='a:2 a:1 x:1')), ('lang=en', dict(lang='en')),
+              ('a:2 a:1 x:1', dict(lexicon='a:2 a:1 x:1')), ('a:1 x:1 y:1', dict(lexicon='a:1 x:1 y:1')),
+              ('y:1', dict(lexicon='y:1')), ('lang=en', dict(lang='en')),
               ('all', dict(lexicon='*'))]
 
 
@@ -50,7 +51,25 @@ def check(case):
     D = docs_()
     try:
         st = Store()
-        for sp in case['install']:
+        for step in case['install']:
+            if isinstance(step, list):
+                # ['touch'] = navigate everything once (fills whatever the library caches);
+                # ['remove', spec] = remove a lexicon (with its extensions)
+                if step[0] == 'touch':
+                    with warnings.catch_warnings():
+                        warnings.simplefilter('ignore')
+                        wt = wn.Wordnet()
+                        for s_ in wt.senses():
+                            s_.word(), s_.synset()
+                        for x_ in wt.words():
+                            x_.senses(), x_.synsets()
+                        for x_ in wt.synsets():
+                            x_.senses(), x_.hypernyms()
+                else:
+                    env.remove(step[1])
+                    st.remove([step[1]])
+                continue
+            sp = step
             r = mk.resource([D[sp]], '1.3')
             env.add_resource(r)
             st.add_resource(r)
@@ -270,6 +289,16 @@ def check(case):
 def space(tier, seed):
     specs = ['a:1', 'a:2', 'x:1', 'b:1', 'c:1']
     cases, seen = [], set()
+    # three-level extension chains
+    for o in (['a:1', 'x:1', 'y:1'], ['a:1', 'a:2', 'x:1', 'y:1', 'b:1'], ['b:1', 'a:1', 'x:1', 'c:1', 'y:1']):
+        cases.append({'install': o})
+    # histories in one process and database: look things up, remove the newest lexicon, add one of the
+    # other kind (it re-uses the freed rowid), observe again
+    for first, victim, then in ((['a:1', 'x:1'], 'x:1', ['a:2']), (['a:1', 'b:1'], 'b:1', ['x:1']),
+                                (['a:1', 'x:1', 'y:1'], 'y:1', ['c:1']), (['a:1', 'a:2'], 'a:2', ['x:1', 'y:1']),
+                                (['c:1', 'a:1', 'x:1'], 'x:1', ['a:2', 'b:1']), (['a:1', 'x:1'], 'a:1', ['a:2', 'a:1'])):
+        cases.append({'install': first + [['touch'], ['remove', victim]] + then})
+        cases.append({'install': first + [['touch'], ['remove', victim]] + then + [['touch'], ['remove', then[-1]], first[-1] if first[-1] != victim else victim]})
     for r in range(1, 6):
         for sub in itertools.combinations(specs, r):
             if 'x:1' in sub and 'a:1' not in sub:
